@@ -7,10 +7,13 @@ import (
 	"net"
 	"os"
 	"path/filepath"
+	"runtime/debug"
 	"runtime/pprof"
+	"strconv"
 	"strings"
 	"sync"
 	"sync/atomic"
+	"syscall"
 	"time"
 
 	"github.com/cybergarage/go-redis/redis"
@@ -173,6 +176,19 @@ func serverGoroutines() (n int, dump string) {
 	return
 }
 
+// serverGoroutines2 counts goroutines whose stack contains the given frame.
+func serverGoroutines2(frame string) (string, int) {
+	var buf bytes.Buffer
+	pprof.Lookup("goroutine").WriteTo(&buf, 2)
+	n := 0
+	for _, g := range strings.Split(buf.String(), "\n\n") {
+		if strings.Contains(g, frame) {
+			n++
+		}
+	}
+	return "", n
+}
+
 // waitGoroutines polls until the number of server goroutines drops to base.
 // stable non-zero excess over the whole grace window = leak; still moving = inconclusive.
 func waitGoroutines(base int) (excess int, dump string) {
@@ -225,6 +241,16 @@ func c15setup(tier string, seed uint64) int {
 				c15.gated = append(c15.gated, c15gated{Kind: "stop-vs-gone-client", Listeners: l, Plain: how, Rep: rep})
 			}
 		}
+		// Start that fails half-way (the plain port is bound, the TLS port is taken by somebody else)
+		c15.gated = append(c15.gated, c15gated{Kind: "start-fails-in-tls-half", Listeners: "both", Rep: rep})
+		// Stop while a client of the TLS port has connected but not finished its handshake
+		for _, l := range []string{"tls", "both"} {
+			c15.gated = append(c15.gated, c15gated{Kind: "stop-vs-handshaking-client", Listeners: l, Rep: rep})
+		}
+		// a transient failure of Accept (the process is out of descriptors for a moment) must not end the service
+		for _, l := range []string{"plain", "tls", "both"} {
+			c15.gated = append(c15.gated, c15gated{Kind: "accept-fails-transiently", Listeners: l, Rep: rep})
+		}
 		// Stop while all registered clients hang up (free-running: Stop's walk over the registry races with the
 		// connection goroutines finishing on their own)
 		hangups := map[string]int{"quick": 18, "thorough": 60}[tier]
@@ -272,7 +298,79 @@ func loopPoints(l string) (exit, closed, enter string) {
 	return "serve.exit", "serve.closed", "serve.enter"
 }
 
+// startFailsInTLSHalf: the TLS port is held by another socket, so Start fails after the plain port was bound.
+// A failed Start promises nothing about serving, but it must not keep the plain port: after it (and after a
+// Stop) the port can be bound again, and once the TLS port is free a new Start works and serves.
+func startFailsInTLSHalf(idx int, g c15gated) run.Result {
+	var res run.Result
+	res.Idx = idx
+	res.Classes = []string{"gated:" + g.Kind}
+	res.Key = gen.Hash64([]byte(fmt.Sprint(g)))
+	res.NonTrivial = true
+	desc := map[string]any{"scenario": g.Kind, "listeners": g.Listeners, "rep": g.Rep}
+	sig := "C15:" + g.Kind
+	s := newLcServer(g.Listeners)
+	if s == nil {
+		res.Inconclusive = "pki unavailable"
+		return res
+	}
+	base, _ := serverGoroutines()
+	blocker, err := net.Listen("tcp", fmt.Sprintf("127.0.0.1:%d", s.tls))
+	if err != nil {
+		res.Inconclusive = "could not occupy the TLS port"
+		return res
+	}
+	// a listener nobody refers to is closed by its finalizer at some later garbage collection: keep the collector
+	// out of the way so that the verdict does not depend on when it happens to run
+	old := debug.SetGCPercent(-1)
+	defer debug.SetGCPercent(old)
+	defer func() {
+		s.srv.Stop()
+		waitGoroutines(base)
+	}()
+	startErr := s.srv.Start()
+	if startErr == nil {
+		blocker.Close()
+		res.Inconclusive = "Start succeeded although the TLS port was taken"
+		return res
+	}
+	res.Count("failed_starts", 1)
+	bindPlain := func() string {
+		l, err := net.Listen("tcp", fmt.Sprintf("127.0.0.1:%d", s.plain))
+		if err != nil {
+			if listeningSocketIsOurs(s.plain) {
+				return fmt.Sprintf("port %d cannot be bound: %v (a listening socket on it is still open in the server process)", s.plain, err)
+			}
+			return ""
+		}
+		l.Close()
+		return ""
+	}
+	if why := bindPlain(); why != "" {
+		blocker.Close()
+		res.Violate(sig+":plain-port-kept-after-failed-start", "after Stop returns the ports can be bound again (a Start that failed must not keep a port either)", "Start failed with "+strconv.Quote(startErr.Error())+"; "+why, desc)
+		return res
+	}
+	stopErr := s.srv.Stop()
+	blocker.Close()
+	if !afterStopReturned(&res, s, sig, stopErr, desc) {
+		return res
+	}
+	if err := s.srv.Start(); err != nil {
+		res.Violate(sig+":start-after-failed-start", "after Stop returns the ports can be bound again", "with the TLS port free again Start still fails: "+err.Error(), desc)
+		return res
+	}
+	if why := s.probeServing(); why != "" {
+		res.Violate(sig+":not-serving", "after Start returns without error the server accepts and serves connections on every enabled port", why, desc)
+	}
+	res.Sample = desc
+	return res
+}
+
 func c15runGated(idx int, g c15gated) run.Result {
+	if g.Kind == "start-fails-in-tls-half" {
+		return startFailsInTLSHalf(idx, g)
+	}
 	var res run.Result
 	res.Idx = idx
 	res.Classes = []string{"gated:" + g.Kind}
@@ -466,6 +564,34 @@ func c15runGated(idx int, g c15gated) run.Result {
 		}
 	case "stop-under-connect-storm":
 		stopStorm(&res, s, ctl, idx, g.Rep, "C15", desc)
+	case "stop-vs-handshaking-client":
+		// a raw TCP connection to the TLS port that sends nothing: the server has accepted it and waits for the
+		// ClientHello (structural witness: a goroutine of the server is inside tlsReceive)
+		c, err := net.DialTimeout("tcp", fmt.Sprintf("127.0.0.1:%d", s.tls), 5*time.Second)
+		if err != nil {
+			res.Inconclusive = "client could not connect"
+			return res
+		}
+		defer c.Close()
+		inHandshake := func() bool {
+			_, dump := serverGoroutines2("go-redis/redis.(*Server).tlsReceive(")
+			return dump > 0
+		}
+		for dl := time.Now().Add(watchdog); !inHandshake() && time.Now().Before(dl); {
+			time.Sleep(time.Millisecond)
+		}
+		if !inHandshake() {
+			res.Inconclusive = "the server did not start the handshake"
+			return res
+		}
+		stopErr := s.srv.Stop()
+		if !clientClosed(&tcpClient{c: c}) {
+			res.Violate(sig+":handshaking-client-open", "after Stop returns every client connection has been closed", "a client that had connected to the TLS port and not yet completed its handshake saw neither EOF nor reset within 3 s after Stop returned", desc)
+			return res
+		}
+		afterStopReturned(&res, s, sig, stopErr, desc)
+	case "accept-fails-transiently":
+		acceptFailsTransiently(&res, s, ctl, sig, desc)
 	case "stop-vs-gone-client":
 		stopVsGoneClient(&res, s, ctl, g, sig, desc)
 	case "stop-under-hangup-storm":
@@ -549,6 +675,89 @@ func afterStopReturned(res *run.Result, s *lcServer, sig string, stopErr error, 
 	}
 	res.Count("stop_postconditions_probed", 1)
 	return true
+}
+
+// acceptFailsTransiently: the process runs out of descriptors for a moment, so that Accept fails for a connection
+// that is already waiting in the listen queue; afterwards descriptors are available again. "After Start returns
+// the server accepts and serves connections on every enabled port until Stop is called": the ports must serve again.
+func acceptFailsTransiently(res *run.Result, s *lcServer, ctl *sched.Ctl, sig string, desc any) {
+	var lim syscall.Rlimit
+	if err := syscall.Getrlimit(syscall.RLIMIT_NOFILE, &lim); err != nil {
+		res.Inconclusive = "getrlimit failed"
+		return
+	}
+	es, _ := os.ReadDir("/proc/self/fd")
+	low := lim
+	low.Cur = uint64(len(es) + 40)
+	if low.Cur > lim.Max {
+		res.Inconclusive = "descriptor limit cannot be lowered"
+		return
+	}
+	var fillers []*os.File
+	restore := func() {
+		for _, f := range fillers {
+			f.Close()
+		}
+		fillers = nil
+		syscall.Setrlimit(syscall.RLIMIT_NOFILE, &lim)
+	}
+	defer restore()
+	if err := syscall.Setrlimit(syscall.RLIMIT_NOFILE, &low); err != nil {
+		res.Inconclusive = "setrlimit failed"
+		return
+	}
+	// take every free descriptor ...
+	for {
+		f, err := os.Open("/dev/null")
+		if err != nil {
+			break
+		}
+		fillers = append(fillers, f)
+		if len(fillers) > 4096 {
+			break
+		}
+	}
+	if len(fillers) < 2 {
+		res.Inconclusive = "could not exhaust the descriptors"
+		return
+	}
+	// ... and for every enabled port give one back to a client: its connection is completed by the kernel and
+	// waits in the listen queue, and the server's Accept has no descriptor left for it
+	var waiting []net.Conn
+	for _, port := range []int{s.plain, s.tls} {
+		if port == 0 {
+			continue
+		}
+		fillers[len(fillers)-1].Close()
+		fillers = fillers[:len(fillers)-1]
+		c, err := net.DialTimeout("tcp", fmt.Sprintf("127.0.0.1:%d", port), 5*time.Second)
+		if err != nil {
+			res.Inconclusive = "the client could not connect while descriptors were short: " + err.Error()
+			return
+		}
+		waiting = append(waiting, c)
+	}
+	// let the accept loops run into the failure: each is either still retrying or gone; both take no descriptor.
+	// (50 ms is not a verdict: if a loop has not tried yet it simply accepts the waiting client after the restore)
+	time.Sleep(50 * time.Millisecond)
+	restore()
+	for _, c := range waiting {
+		c.Close()
+		s.closed++
+	}
+	res.Count("accept_failure_injections", int64(len(waiting)))
+	// the server must serve again on every port (a retrying accept loop may pause between attempts: the probe's
+	// own 5 s dial and 20 s reply deadlines are the watchdog)
+	var why string
+	for attempt := 0; attempt < 3; attempt++ {
+		if why = s.probeServing(); why == "" {
+			break
+		}
+		time.Sleep(300 * time.Millisecond)
+	}
+	if why != "" {
+		res.Violate(sig+":not-serving-after-accept-error", "after Start returns the server accepts and serves connections on every enabled port until Stop is called", "after Accept failed once for lack of descriptors (EMFILE) and descriptors were available again: "+why, desc)
+	}
 }
 
 // rstClose makes the client vanish with a reset (linger 0) instead of an orderly FIN.
@@ -979,7 +1188,7 @@ func init() {
 	run.Register(&run.Prop{
 		ID: "C15", Level: "fault_enumeration",
 		Rule: func(tier string) string {
-			return "two parts. (gated, hook H2) a controller parks goroutines at named schedule points and releases them in a chosen order: Restart vs the exiting accept loops for {plain, TLS, both} listeners with each old loop's exit (and its deferred close) placed before Stop returns / after the new listeners are open / concurrently (3, 3 and 9 placements); Stop vs a connection accepted while Stop is between its two phases; Stop vs connection goroutines parked at their exit point; Stop in the middle of a connect storm (16 dialing goroutines, repeated; a connection that answers after Stop returned, or that is still registered at a fixed point, is a violation); Stop while a client whose handler is still running has already gone away by reset or FIN (the reset is known to have arrived when the kernel no longer lists the server-side socket); Stop while 24..64 registered clients hang up by FIN and reset at the same moment (free-running, repeated). What Stop promises is probed whenever Stop returns, with or without an error. Postconditions probed after everything is released: dial+PING on every enabled port (twice), bind probe, client-side EOF, Conns() empty, goroutine profile. (histories) ALL call sequences over {Start, Stop, Restart} up to length 4 (quick) / 6 (thorough) x {plain, plain+TLS} with 0..3 clients connecting, idling or disconnecting between calls; after each call the promise of that call is probed, and at quiescent instants len(Conns()) must equal the number of client sockets held open (waiting on the conn.deregistered point, not on time). Start on a running server is tagged start-while-running. A goroutine leak is only reported when the count stays above baseline for the whole grace window; a goroutine parked at its own schedule point after Stop returned is a strict violation. Children are race-detector builds. distinct = scenario/sequence"
+			return "two parts. (gated, hook H2) a controller parks goroutines at named schedule points and releases them in a chosen order: Restart vs the exiting accept loops for {plain, TLS, both} listeners with each old loop's exit (and its deferred close) placed before Stop returns / after the new listeners are open / concurrently (3, 3 and 9 placements); Stop vs a connection accepted while Stop is between its two phases; Stop vs connection goroutines parked at their exit point; Stop in the middle of a connect storm (16 dialing goroutines, repeated; a connection that answers after Stop returned, or that is still registered at a fixed point, is a violation); Stop while a client whose handler is still running has already gone away by reset or FIN (the reset is known to have arrived when the kernel no longer lists the server-side socket); Stop while 24..64 registered clients hang up by FIN and reset at the same moment (free-running, repeated). What Stop promises is probed whenever Stop returns, with or without an error. Stop while a client of the TLS port has connected but not sent its ClientHello (it must see EOF or a reset within 3 s). A Start that fails in its TLS half (the TLS port is held by another socket) must leave the plain port bindable, and after Stop a new Start must work. A transient Accept failure: every free descriptor of the process is taken, one client per port is left waiting in the listen queue so that Accept fails with EMFILE, the descriptors are released, and every port must serve again. Postconditions probed after everything is released: dial+PING on every enabled port (twice), bind probe, client-side EOF, Conns() empty, goroutine profile. (histories) ALL call sequences over {Start, Stop, Restart} up to length 4 (quick) / 6 (thorough) x {plain, plain+TLS} with 0..3 clients connecting, idling or disconnecting between calls; after each call the promise of that call is probed, and at quiescent instants len(Conns()) must equal the number of client sockets held open (waiting on the conn.deregistered point, not on time). Start on a running server is tagged start-while-running. A goroutine leak is only reported when the count stays above baseline for the whole grace window; a goroutine parked at its own schedule point after Stop returned is a strict violation. Children are race-detector builds. distinct = scenario/sequence"
 		},
 		Exhaustive:    func(string) bool { return true },
 		Assumptions:   []string{"TLS listeners are configured through the file-based path with a PKI minted at run time", "wall-clock watchdogs only produce 'inconclusive'"},
